@@ -141,6 +141,8 @@ UnsupportedTypeSets == {
    <<TItem, TMyErr, TColor, RawT("Hostile", "type Hostile[T any] struct {\n\tV T `json:\"v\"`\n}")>>,
    <<TItem, TMyErr, TColor, RawT("Hostile", "type Hostile struct {\n\tV Gen[int] `json:\"v\"`\n}\n\ntype Gen[T any] struct {\n\tX T `json:\"x\"`\n}")>>,
    <<TItem, TMyErr, TColor, RawT("Hostile", "type Hostile struct {\n\tV [][]*[]map[string][]int `json:\"v\"`\n}")>>,
+   <<TItem, TMyErr, TColor, RawT("Hostile", "type Hostile struct {\n\tV Gen[Item] `json:\"v\"`\n\tW Gen[[]Item] `json:\"w\"`\n}\n\ntype Gen[T any] struct {\n\tX T `json:\"x\"`\n}")>>,
+   <<TItem, TMyErr, TColor, RawT("Hostile", "type Hostile struct {\n\tV Pair[string, Item] `json:\"v\"`\n}\n\ntype Pair[K comparable, V any] struct {\n\tKey K `json:\"key\"`\n\tVal V `json:\"val\"`\n}")>>,
    <<TItem, TMyErr, TColor, RawT("Hostile", "type Hostile = Item")>>,
    <<TItem, TMyErr, TColor, RawT("Hostile", "type Hostile uint8\n\nconst (\n\tHA Hostile = iota\n\tHB\n\tHC = HB << 2\n)")>> }
 CfgsC14 == { Cfg(en, v, FALSE, NoSec, <<"s1">>) : en \in {"gin", "fiber"}, v \in {"3.0.0", "3.1.0"} }
@@ -149,6 +151,18 @@ MethodsC14 ==    { [MthP("POST", <<Prm("e", "p1.Hostile", "Body", "", "")>>, ret
             \cup { [MthP("GET", <<Prm("b", "string", "Query", "", "")>>, <<"[]p1.Hostile", "error">>, <<>>, 0) EXCEPT !.anns = <<a>>] : a \in HostileAnns }
             \cup { [MthP("GET", <<Prm("b", "p1.Hostile", "Query", "", "")>>, <<"error">>, <<>>, 0) EXCEPT !.verb = v] : v \in {"GET", "TRACE", ""} }
 TypeSetsC14 == HostileTypeSets \cup UnsupportedTypeSets
+
+\* ---- C09: names and packages that stress the string-built import aliases (ParamN<name>, ResponseN<type>) ----------------------
+Cfg9(vt, ge, vr) == [engine |-> "gin", version |-> "3.0.0", enforce |-> FALSE, default |-> NoSec, schemes |-> <<"s1">>,
+                     validateTopLevelOnlyEnum |-> vt, generateEnumValidator |-> ge, validateResponsePayload |-> vr]
+CfgsC09 == { Cfg9(vt, ge, vr) : vt \in BOOLEAN, ge \in BOOLEAN, vr \in BOOLEAN }
+CtrlsC09 == { Ctl("p1", "f1", "AController", "/a", "A", <<>>), Ctl("p2", "f2", "BController", "/b", "B", <<>>), Ctl("p1", "f2", "CController", "/c", "C", <<>>) }
+\* the same parameter NAME with types from different packages, in different controllers, at the same ordinal
+MethodsC09 == { MthP("POST", ps, ret, <<>>, 0) :
+                  ps \in { <<Prm("item", t, "Body", "", "")>> : t \in {"p1.Item", "p2.Line", "p1.Order", "[]p2.Line", "*p1.Item", "[]p1.Item"} }
+                       \cup { <<Prm("item", t, "Query", "", "")>> : t \in {"p1.Color", "p2.Level", "p2.Code", "[]p1.Color"} },
+                  ret \in { <<"error">>, <<"p1.Item", "error">>, <<"p2.Line", "error">>, <<"[]p1.Order", "error">>, <<"*p2.Line", "error">>, <<"p2.Level", "error">> } }
+TypesC09 == { <<TItem, TMyErr, TColor, TOrder, TLine, TLevel, TCode>> }
 
 \* ---- C10 / C18: every single and double perturbation of two well-formed base routes --------------------------------------
 An(k, v, al) == [kind |-> k, value |-> v, alias |-> al, validate |-> "", desc |-> ""]
@@ -163,6 +177,9 @@ Rev(sq) == [j \in 1..Len(sq) |-> sq[Len(sq) + 1 - j]]
 \* the same routes with the annotation lines in reverse order (the order of annotations must not matter to the verdict)
 BaseJr == [BaseJ EXCEPT !.anns = Rev(BaseJ.anns), !.desc = "base, annotations reversed"]
 BaseFr == [BaseF EXCEPT !.anns = Rev(BaseF.anns), !.desc = "base, annotations reversed"]
+\* two path parameters (several diagnostics of one kind on one route)
+BaseP == [BaseJ EXCEPT !.route = "/r/{a}/{b}", !.sig = <<Sg("a", "string"), Sg("b", "int")>>, !.anns = <<An("Path", "a", ""), An("Path", "b", "")>>, !.ret = <<"error">>]
+BadAlias(a, n) == [kind |-> a.kind, value |-> a.value, alias |-> "", validate |-> "", desc |-> "", rawProps |-> "{name: " \o ToString(n) \o "}"]
 Rm(sq, i) == [j \in 1..(Len(sq) - 1) |-> IF j < i THEN sq[j] ELSE sq[j + 1]]
 Tag(b, t) == IF b.ptag = "" THEN t ELSE b.ptag \o "+" \o t
 Perturb1(b) ==
@@ -181,10 +198,12 @@ Perturb1(b) ==
   \cup { [b EXCEPT !.route = r, !.ptag = Tag(b, "route:" \o r)] : r \in {"/r", "/r/{a}/{a}", "/r/{zz}", "/r/{a}/{id}", "/r/{id}"} \ {b.route} }
   \cup { [b EXCEPT !.ret = r, !.ptag = Tag(b, "ret")] : r \in {<<>>, <<"p1.Item">>, <<"string", "string", "error">>, <<"p1.Item", "string">>, <<"p1.MyErr">>, <<"string", "p1.MyErr">>} \ {b.ret} }
   \cup { [b EXCEPT !.verb = v, !.ptag = Tag(b, "verb:" \o v)] : v \in {"HEAD", "OPTIONS", "FETCH", "get", "DELETE"} }
+  \cup { [b EXCEPT !.anns = [j \in DOMAIN b.anns |-> IF j = i THEN BadAlias(b.anns[j], j) ELSE b.anns[j]], !.ptag = Tag(b, "badAlias:" \o b.anns[i].kind)] : i \in DOMAIN b.anns }
+  \cup { [b EXCEPT !.anns = [j \in DOMAIN b.anns |-> IF b.anns[j].kind = "Path" THEN BadAlias(b.anns[j], j) ELSE b.anns[j]], !.ptag = Tag(b, "badAliasAllPaths")] }
 Perturb2(b) == UNION {Perturb1(x) : x \in Perturb1(b)}
 CfgsC10 == { Cfg("gin", "3.0.0", FALSE, NoSec, <<"s1">>) }
 CtrlsC10 == { Ctl("p1", "f1", "AController", pre, "A", <<>>) : pre \in {"/a", "/a/{t}"} }
-MethodsC10single == {BaseJ, BaseF, BaseJr, BaseFr} \cup Perturb1(BaseJ) \cup Perturb1(BaseF) \cup Perturb1(BaseJr) \cup Perturb1(BaseFr)
+MethodsC10single == {BaseJ, BaseF, BaseJr, BaseFr, BaseP} \cup Perturb1(BaseJ) \cup Perturb1(BaseF) \cup Perturb1(BaseJr) \cup Perturb1(BaseFr) \cup Perturb1(BaseP)
 MethodsC10double == Perturb2(BaseJ) \cup Perturb2(BaseF) \cup Perturb2(BaseJr)
 
 \* ---- model checking of the session machine: small input space, every schedule ------------------------------------------
